@@ -38,6 +38,7 @@ inductive BodyStep
   | dbg (c : Nat) (bomb : Option LockId := none)  -- `format!("{:?}", collection c)` while holding; `bomb`: the payload of that lock panics in its own `Debug`
   | getKey                        -- `ThreadKey::get()` while holding (dropped at once if obtained)
   | isPoisoned (c : Nat)
+  | clearPoison (c : Nat)         -- `clear_poison()` on collection c while holding
   deriving DecidableEq, Repr, Inhabited
 
 structure Session where
@@ -151,6 +152,10 @@ def bodySteps (C : Ctx) (S : Shape) : List BodyStep → Prog Unit Unit
     match isPoisonableTop (C.shape c) with
     | some p => op (.poisonGet p) fun r =>
         op (.mark (if r == .ok then mkSeenPoisoned else mkSeenClean)) fun _ => bodySteps C S bs
+    | none => bodySteps C S bs
+  | .clearPoison c :: bs =>
+    match isPoisonableTop (C.shape c) with
+    | some p => op (.poisonClear p) fun _ => bodySteps C S bs
     | none => bodySteps C S bs
 
 def dropKeyIf (k : KeyStyle) {α : Type} (cont : Prog Unit α) : Prog Unit α :=
